@@ -271,16 +271,6 @@ func runC10(h *H) {
 			_, err := c.Move(imap.SeqSetNum(1, 2), "Dest").Wait()
 			return err
 		}, generic},
-		{"move-fallback-store-refused", func(c *imapclient.Client) error {
-			_, err := c.Move(imap.SeqSetNum(1, 2), "Dest").Wait()
-			return wantNo(err)
-		}, func(p *scriptedPeer, c *peerCmd) {
-			if c.Name == "STORE" {
-				p.Send(c.Tag + " NO [NOPERM] flags are read-only\r\n")
-				return
-			}
-			generic(p, c)
-		}},
 		{"noop", func(c *imapclient.Client) error { return c.Noop().Wait() }, generic},
 		{"fetch-many-items-collect", func(c *imapclient.Client) error {
 			_, err := c.Fetch(imap.SeqSetNum(1, 2), &imap.FetchOptions{UID: true}).Collect()
